@@ -93,6 +93,10 @@ func setFloatJudge(c *Ctx, key func() string, z *Dec, pv interface{}, ex Val, pr
 		c.Fail(key(), fmt.Sprintf("receiver attributes: %s, want prec %d mode %d", o, prec, mode))
 		return
 	}
+	if c.prop.ID == "C09" {
+		c.NonTrivial()
+		return // attribute judge only
+	}
 	if ex.Form != fFinite {
 		if o.Form != ex.Form || o.Neg != ex.Neg {
 			c.Fail(key(), fmt.Sprintf("got %s, want %s", o, ex))
@@ -474,6 +478,17 @@ func floatLayers(tier string) []Layer {
 							if msg := Canonical(o); msg != "" {
 								c.Fail(key, "malformed: "+msg)
 								continue
+							}
+							wp := p
+							if wp == 0 {
+								wp = uint32(math.Ceil(float64(x.Prec()) * math.Ln2 / math.Ln10))
+							}
+							if o.Prec != wp || o.Mode != ToNearestEven {
+								c.Fail(key, fmt.Sprintf("receiver attributes: %s, want prec %d mode ToNearestEven", o, wp))
+								continue
+							}
+							if c.prop.ID == "C09" {
+								continue // attribute judge only
 							}
 							if o.Form != fFinite || o.Neg != neg {
 								c.Fail(key, fmt.Sprintf("got %s, want a finite value of the same sign", o))
